@@ -40,7 +40,7 @@ Definition x_vecrep (m : mode) (frame : list N) (k : nat) : N * list N :=
 Fixpoint set_text_fixed (fs : list (string * atom)) (vs : list value) (idx : nat) (bs : list N)
   : option (list value) :=
   match fs, vs with
-  | (_, AText _) :: fs', v :: vs' =>
+  | (_, AText _ _) :: fs', v :: vs' =>
       match idx with
       | O => Some (VB bs :: vs')
       | S i => match set_text_fixed fs' vs' i bs with Some r => Some (v :: r) | None => None end
